@@ -35,7 +35,8 @@ def _canon(n):
     if k == "map":
         return dict(n, keys=_canon(n["keys"]), vals=_canon(n["vals"]))
     if k == "object":
-        return dict(n, props=sorted((dict(p, type=_canon(p["type"])) for p in n["props"]), key=lambda p: p["name"]))
+        return dict(n, props=sorted((dict(p, type=_canon(p["type"]), **{r: sorted(p.get(r, [])) for r in RULES})
+                                     for p in n["props"]), key=lambda p: p["name"]))
     if k == "scope":
         return dict(n, objects=sorted((_canon(o) for o in n["objects"]), key=lambda o: o["id"]))
     if k == "oneof":
@@ -43,11 +44,16 @@ def _canon(n):
     return n
 
 
+RULES = ("conflicts", "required_if", "required_if_not")
+
+
 def fill(n):
     """a case recorded before properties carried has_default / disabled: add the fields (TLC's records of one
     family have the same fields); in place, returns n"""
     k = n.get("kind")
-    if k in ("int", "float", "string"):
+    if k in ("enum_int", "enum_string"):
+        n.setdefault("spell", "token")
+    elif k in ("int", "float", "string"):
         n.setdefault("units", "none")
     elif k == "list":
         n.setdefault("impl", "plain")
@@ -60,11 +66,14 @@ def fill(n):
         for p in n["props"]:
             p.setdefault("has_default", False)
             p.setdefault("disabled", False)
+            for r in RULES:
+                p.setdefault(r, [])
             fill(p["type"])
     elif k == "scope":
         for o in n["objects"]:
             fill(o)
     elif k == "oneof":
+        n.setdefault("inline", False)
         for m in n["members"]:
             fill(m["obj"])
     return n
@@ -119,7 +128,8 @@ def focus(a, b, with_path=False):
             if key in seen:
                 return None
             seen.add(key)
-            flags = lambda p: (p["name"], p["required"], p.get("has_default", False), p.get("disabled", False))
+            flags = lambda p: (p["name"], p["required"], p.get("has_default", False), p.get("disabled", False),
+                               [sorted(p.get(r, [])) for r in RULES])
             hx = (ox["id"], ox["id_unenforced"], ox.get("impl", "plain"), [flags(p) for p in ox["props"]])
             hy = (oy["id"], oy["id_unenforced"], oy.get("impl", "plain"), [flags(p) for p in oy["props"]])
             if hx != hy:
@@ -130,8 +140,8 @@ def focus(a, b, with_path=False):
                     return d
             return None
         if kx == "oneof":
-            hx = (x["disc"], x["field"], [m["key"] for m in x["members"]])
-            hy = (y["disc"], y["field"], [m["key"] for m in y["members"]])
+            hx = (x["disc"], x["field"], x.get("inline", False), [m["key"] for m in x["members"]])
+            hy = (y["disc"], y["field"], y.get("inline", False), [m["key"] for m in y["members"]])
             if hx != hy:
                 return x, y, path
             for mx, my in zip(x["members"], y["members"]):
@@ -242,6 +252,8 @@ def features(n, out=None):
                 out.add("disabled_property")
             if p.get("has_default"):
                 out.add("default")
+            if any(p.get(r) for r in RULES):
+                out.add("field_rules")
             features(p["type"], out)
     elif k == "scope":
         for o in n["objects"]:
@@ -452,9 +464,11 @@ def validate_trace(ctx, lines, stats):
 def run(ctx):
     thorough = ctx.tier == "thorough"
     stats = {}
-    ctx.rule = ("every state of CompatMC is one case (consumer, producer, mode): all ordered pairs of the "
+    ctx.rule = ("every state of CompatMC is one case (consumer, producer, mode, history): all same-family "
+                "ordered pairs and every schema against a representative of each other family, of the "
                 "generated universe (objects with required x default x disabled property flags, struct-mapped and typed "
-                "objects, ints and floats with units, typed lists and maps in every bound shape included; histories: "
+                "objects, objects with rules between fields, one-ofs inlining the discriminator (members declaring one "
+                "or both candidate fields, behind references), ints and floats with units, typed lists and maps in every bound shape included; histories: "
                 "one side parsed unit-suffixed strings first) at depth 1, same-family and representative cross-family pairs under 7 "
                 "wrappers at depth 2, under wrapper pairs at depth 3; modes direct / same instance / producer or "
                 "consumer rebuilt from its description; each case = %d calls of ValidateCompatibility; plus seeded "
@@ -514,12 +528,18 @@ def run(ctx):
         "scopes whose description the SDK cannot produce or read back (enum values without display name) are "
         "not judged in the rebuilt modes (counted as not_describable); UnserializeScope returns unlinked "
         "references, the harness calls ApplySelf() itself",
-        "string enum values and one-of keys are tokens rendered v<n> / k<n>; float bounds are integral",
+        "string enum values are rendered v<n> (token) or as the one-character string with code point n (rune, "
+        "values 33..126); one-of keys are tokens k<n>; float bounds are integral",
         "units: the statement names no rule on units, pairs with different unit sets are open; the package-level "
         "unit sets are process state - the harness lets an unrelated schema parse a unit-suffixed string with "
         "each before any case, so they are always in the used state; histories a / b let the directly built "
         "consumer / producer parse unit-suffixed strings with its own unit-carrying ints and floats first; no "
         "expectation depends on the history",
+        "rules between fields (conflicts, required_if, required_if_not) concern the fields of a VALUE (data mode); "
+        "schema comparison never consults them (the model's reasons are invariant under clearing them) - an object "
+        "whose properties conflict is compatible with itself and its rebuilt copy; data-mode verdicts are not judged",
+        "a one-of with another discriminator NAME is rejected whether or not either side inlines it and whatever "
+        "its members declare",
         "typed lists and maps are instantiated over scalar element types (int, float, string, bool; int or "
         "string keys)",
     ]
